@@ -119,8 +119,15 @@ def scen_submission_order(kind):
         gate.wait(1.0)
         r.action("0")(scheduler, state)
     s.schedule(first)
+    from datetime import timedelta as _td
     for i in range(1, 8):
-        s.schedule(r.action(str(i)))
+        if i == 3:
+            # an action scheduled for a time already past is immediately due like the others: it keeps ITS place in the submission order
+            s.schedule_absolute(s.now - _td(seconds=10), r.action(str(i)))
+        elif i == 5:
+            s.schedule_relative(-1.0, r.action(str(i)))
+        else:
+            s.schedule(r.action(str(i)))
     gate.set()
     time.sleep(0.25)
     s.dispose()
@@ -287,6 +294,23 @@ def scen_loop_under_a_controlled_clock(kind):
         return f"timed actions on the event loop under a controlled clock: after {started} the loop spins at clock {clock[0]} without waiting and without running anything"
     if started != [("now", 0.0), ("a", 1.0), ("b", 2.0)]:
         return f"timed actions on the event loop under a controlled clock started at {started}, expected now@0, a@1.0, b@2.0"
+    # a due time that lies only a little ahead is still ahead: no action starts before its due time on the scheduler's clock, however short the wait
+    for tiny in (0.0005, 0.00025, 0.000001):
+        clock[0] = 0.0
+        s = Controlled(thread_factory=lambda target: NoThread())
+        s._condition = FakeCondition()
+        del started[:]
+        s.schedule_relative(tiny, mk("soon", 0.0))
+        s.schedule_relative(0.5, mk("later", 0.0))
+        reads[0] = 0
+        try:
+            s.run()
+        except Stop:
+            pass
+        except Spin:
+            return f"timed actions on the event loop under a controlled clock: the loop spins at clock {clock[0]} (after {started})"
+        if started != [("soon", round(tiny, 6)), ("later", 0.5)]:
+            return f"an action due {tiny} s ahead started at {started} on the scheduler's clock, expected soon@{tiny}, later@0.5"
     return None
 
 
